@@ -9,10 +9,31 @@ class Facts:
         self.meta = meta or {}
         self.bodies = raw["bodies"]
         self.by_path = {}
+        impl_assigned = {}
+        for b in self.bodies:
+            if b.get("_loops_normalised"):
+                continue
+            acc = impl_assigned.setdefault(b.get("impl_self") or "", set())
+            for n in walk(b.get("body") or {}):
+                if n.get("k") in ("Assign", "AssignOp"):
+                    l = peel(n["l"])
+                    if l.get("k") == "Index":
+                        l = peel(l["e"])
+                    if l.get("k") == "Field" and place(l):
+                        acc.add(place(l))
+                if n.get("k") == "Ref" and n.get("mut") and peel(n["e"]).get("k") == "Field" and place(peel(n["e"])):
+                    acc.add(place(peel(n["e"])))
+                if n.get("k") == "MCall" and n["name"] not in _PURE_M and peel(n["recv"]).get("k") == "Field" and place(peel(n["recv"])):
+                    acc.add(place(peel(n["recv"])))
         for b in self.bodies:
             if not b.get("_loops_normalised"):
+                b["_impl_assigned_fields"] = sorted(impl_assigned.get(b.get("impl_self") or "", ()))
                 try:
                     normalise_loops(b)
+                except Exception:
+                    pass
+                try:
+                    simplify_lets(b)
                 except Exception:
                     pass
                 b["_loops_normalised"] = True
@@ -588,3 +609,181 @@ def canonicalise_locals(bodies):
                     apply(x)
         apply(b.get("params"))
         apply(b.get("body"))
+
+
+# ---- temporaries --------------------------------------------------------------------------------------------------------------
+_PURE_M = {"abs", "real", "imaginary", "clone", "len", "modulus", "norm", "recip", "powi", "powf", "sqrt", "signum", "is_sign_positive", "is_sign_negative",
+           "max", "min", "is_empty", "ln", "log2", "ceil", "floor", "to_owned", "copied", "cloned", "is_some", "is_none"}
+
+
+def _pure_expr(e):
+    for x in walk(e):
+        k = x.get("k")
+        if k == "MCall" and x["name"] not in _PURE_M:
+            return False
+        if k == "Call" and ("ovl" in x or not (callee(x) or "").startswith(("num_traits", "std::convert", "nalgebra::ComplexField", "core::convert", "nalgebra::RealField",
+                                                                                 "simba"))):
+            return False
+        if k in ("Assign", "AssignOp", "Closure", "Loop", "While", "For", "Ret", "Break", "Continue", "Try", "Match", "Index"):
+            return False
+    return True
+
+
+def _deep(e):
+    if isinstance(e, dict):
+        return {k: _deep(v) for k, v in e.items()}
+    if isinstance(e, list):
+        return [_deep(x) for x in e]
+    return e
+
+
+def simplify_lets(body):
+    """Three behaviour-preserving rewrites that undo common "introduce a temporary" refactorings, so that rules see one spelling:
+    (1) an immutable `let b: bool = <pure test>` is substituted at its uses;
+    (2) an immutable `let t = <pure expr>` used exactly once, as the whole right-hand side of an assignment, is substituted there;
+    (3) `place op= if c { a } else { b }` becomes `if c { place op= a } else { place op= b }` (also for else-if chains).
+    "Pure" = arithmetic, comparisons, field reads and side-effect-free methods; the locals and fields read must not be assigned anywhere in
+    the function (so moving the expression cannot change its value)."""
+    root = body.get("body")
+    if not isinstance(root, dict):
+        return
+    assigned_locals, assigned_fields = set(), set()
+    for n in walk(root):
+        if n.get("k") in ("Assign", "AssignOp"):
+            l = peel(n["l"])
+            if l.get("k") == "Local":
+                assigned_locals.add(l["id"])
+            elif l.get("k") == "Field":
+                assigned_fields.add(place(l))
+            elif l.get("k") == "Index":
+                b_ = peel(l["e"])
+                if b_.get("k") == "Local":
+                    assigned_locals.add(b_["id"])
+                elif b_.get("k") == "Field":
+                    assigned_fields.add(place(b_))
+        if n.get("k") == "Ref" and n.get("mut"):
+            t = peel(n["e"])
+            if t.get("k") == "Local":
+                assigned_locals.add(t["id"])
+            elif t.get("k") == "Field":
+                assigned_fields.add(place(t))
+        if n.get("k") == "MCall" and n["name"] not in _PURE_M:
+            r = peel(n["recv"])
+            if r.get("k") == "Field":
+                assigned_fields.add(place(r))       # a method that may mutate its receiver
+            elif r.get("k") == "Local" and r.get("name") == "self":
+                # a method of the same impl: it may assign any field that some method of the impl assigns
+                assigned_fields.update(body.get("_impl_assigned_fields") or [])
+            elif r.get("k") == "Local":
+                assigned_locals.add(r["id"])
+
+    def stable(e):
+        for x in walk(e):
+            if x.get("k") == "Local" and x["id"] in assigned_locals and x.get("name") != "self":
+                return False
+            if x.get("k") == "Field":
+                pl = place(x)
+                if pl is None or any(pl == f or pl.startswith(f + ".") or f.startswith(pl + ".") for f in assigned_fields):
+                    return False
+        return True
+    uses = {}
+    for n, parents in walk_with_parents(root):
+        if n.get("k") == "Local":
+            uses.setdefault(n["id"], []).append((n, parents))
+    subst = {}
+    drop = []
+    for n in walk(root):
+        if n.get("k") != "LetS" or n["pat"].get("k") != "Bind" or "init" not in n or "Mut)" in n["pat"].get("mode", ""):
+            continue
+        lid = n["pat"]["id"]
+        if lid in assigned_locals or not _pure_expr(n["init"]) or not stable(n["init"]):
+            continue
+        us = uses.get(lid, [])
+        def field_alias(e):
+            x = e
+            while isinstance(x, dict) and ((x.get("k") == "MCall" and x["name"] in ("real", "clone", "to_owned", "copied") and not x["args"]) or x.get("k") in ("Ref",)
+                                           or (x.get("k") == "Un" and x.get("op") == "Deref")):
+                x = x["recv"] if x.get("k") == "MCall" else x["e"]
+            return isinstance(x, dict) and x.get("k") == "Field" and (place(x) or "").startswith("self.")
+        def fields_only(e):
+            """a pure expression over `self.*` fields and constants only (no locals): an alias of a field expression"""
+            has_field = False
+            for x in walk(e):
+                if x.get("k") == "Local" and x.get("name") != "self":
+                    return False
+                if x.get("k") == "Field":
+                    has_field = True
+            return has_field
+        if (n["pat"].get("ty") == "bool" or field_alias(n["init"]) or fields_only(n["init"])) and us:
+            subst[lid] = n["init"]
+            drop.append(n)
+        elif len(us) == 1:
+            u, parents = us[0]
+            par = parents[-1] if parents else None
+            # the single use is the entire right-hand side of an assignment (possibly through a by-value conversion)
+            x, ps = u, list(parents)
+            while ps and ps[-1].get("k") == "Call" and len(ps[-1].get("args", [])) == 1 and (callee(ps[-1]) or "").split("::")[-1] in ("from_real", "from", "into"):
+                x = ps.pop()
+            if ps and ps[-1].get("k") in ("Assign", "AssignOp") and ps[-1].get("r") is x:
+                subst[lid] = n["init"]
+                drop.append(n)
+    if subst:
+        def repl(e):
+            if isinstance(e, dict):
+                if e.get("k") == "Local" and e.get("id") in subst:
+                    return repl(_deep(subst[e["id"]]))
+                for k, v in list(e.items()):
+                    if isinstance(v, (dict, list)):
+                        e[k] = repl(v)
+                return e
+            if isinstance(e, list):
+                return [repl(x) for x in e]
+            return e
+        repl(root)
+        dropset = {id(d) for d in drop}
+        for n in walk(root):
+            if n.get("k") == "Block" and n.get("stmts"):
+                n["stmts"] = [st for st in n["stmts"] if id(st) not in dropset]
+    # (3) distribute an assignment over an if-expression
+    def distribute(asg):
+        r = asg["r"]
+        wrap = []
+        while r.get("k") == "Call" and len(r.get("args", [])) == 1 and (callee(r) or "").split("::")[-1] in ("from_real",):
+            wrap.append(r)
+            r = r["args"][0]
+        while r.get("k") == "Block" and not r.get("stmts") and r.get("expr") is not None:
+            r = r["expr"]
+        if r.get("k") != "If" or "e" not in r:
+            return None
+
+        def tail_of(blk):
+            x = blk
+            while isinstance(x, dict) and x.get("k") == "Block" and not x.get("stmts") and x.get("expr") is not None:
+                x = x["expr"]
+            return x
+
+        def mk(branch):
+            t = tail_of(branch)
+            if isinstance(t, dict) and t.get("k") == "If" and "e" in t:
+                inner = dict(asg, r=t)
+                d = distribute(inner)
+                if d is not None:
+                    return {"k": "Block", "stmts": [], "expr": d, "ty": "()", "sp": branch.get("sp")}
+            if isinstance(branch, dict) and branch.get("k") == "Block" and branch.get("stmts"):
+                return None
+            val = t
+            for w in reversed(wrap):
+                val = dict(w, args=[val])
+            return {"k": "Block", "stmts": [{"k": "Semi", "e": dict(_deep(asg), r=val), "sp": asg.get("sp")}], "ty": "()", "sp": branch.get("sp")}
+        tb, eb = mk(r["t"]), mk(r["e"])
+        if tb is None or eb is None:
+            return None
+        return {"k": "If", "c": r["c"], "t": tb, "e": eb, "ty": "()", "sp": asg.get("sp")}
+    for n in walk(root):
+        if n.get("k") == "Block" and n.get("stmts"):
+            for st in n["stmts"]:
+                e = st.get("e") if st.get("k") in ("ExprS", "Semi") else None
+                if isinstance(e, dict) and e.get("k") in ("Assign", "AssignOp") and peel(e["l"]).get("k") in ("Local", "Field"):
+                    d = distribute(e)
+                    if d is not None:
+                        st["e"] = d
